@@ -18,7 +18,7 @@ func init() {
 		ID:          "C04",
 		Level:       "other",
 		Run:         runC04,
-		Explanation: "Decides that the mechanisms of the hazard discipline are wired as it requires, on every variant: R04.1 the hazard classifiers equal the reference (RAW = reads∩pending writes, WAW = writes∩pending writes, WAR = writes∩pending reads, zero register skipped); R04.2 the control unit's dispatch predicates equal the reference (conflict with held-back instructions; forwarding only for exactly one RAW hazard with a producer dispatched in the previous cycle; renaming only for exactly one non-RAW hazard) and every dispatch is guarded by 'no hazard', the forwarding predicate or the renaming predicate; R04.3 the scoreboard is raised at dispatch and released after the architectural write, in the same block; R04.4 forwarding wiring (one channel of capacity 1 shared by producer and consumer, the forwarded register is the hazard's, the producer sends its result exactly when it has a forwarder, the consumer receives before it runs); R04.5 register read precedence; R04.6 declared read/write sets are exact; R04.7 the scoreboard touches only the scoreboard; R04.8 where renaming can put two writers of a register in flight, the forwarding predicate equals the renaming reference (forward only from the single writer dispatched in the previous cycle when no writer was dispatched in the current cycle); R04.14 a variant that renames registers on write-after-read bounds every register read by the reader's own sequence tag; R04.13 Forward(f) of every instruction stores f in the instruction itself (pointer receiver, the field every register read consults); R04.12 write-after-write under out-of-order completion: the uncommitted writes of a register are kept ordered by sequence id, a value is committed only over an older one, and a read prefers a committed younger value (reference model); R04.9 all register-reading calls of one variant pass the same sequence tag; R04.11 every path through the control unit's step rotates the previous-cycle set the forwarding predicate relies on; R04.10 wiring a forward writes only the producer's Forwarder, so an instruction that is the consumer of one forward and the producer of the next keeps the register it is waiting for. Does not decide that the discipline is sufficient under every dispatch interleaving (a schedule/value question). R04.15 the control unit neither loses nor duplicates an instruction and appends every held-back instruction to the list the hazard-with-held-back predicate consults; R04.16 the containers of in-flight instructions (pending queue, current/previous dispatch windows, held-back list) are emptied by the flush or re-created by every step. R04.17 the operand handed to a forwarded instruction is the value received on the forwarding channel, for the register recorded at dispatch. R04.18 the control unit's dispatch decision equals its reference model as a decision procedure over the (uninterpreted) answers of the predicates it consults: outcome, channel wiring and order of consultations agree on every combination of answers, which fixes the polarity of every guard. R04.19 the program-order tag given at decode is strictly increasing in decode order (the rename table, the write-unit filter and the rollbacks order by it). R04.20 MVP-4/5: the execute unit leaves the step while a register the instruction reads has a pending write (positive test, before the addresses are computed and the instruction runs). R04.21 the scoreboard entries raised at dispatch are released for every kind of execution the write unit accepts (register result, store, nothing to write) and for a store the execute unit performs in place. R04.22 the write unit's sequence filter is strict: the result of the instruction that caused the flush is written (its consumers on the correct path read it). R04.23 the folds of the rename table into the committed table (one value per register) at branch resolution take older in-flight readers into account (known: they do not).",
+		Explanation: "Decides that the mechanisms of the hazard discipline are wired as it requires, on every variant: R04.1 the hazard classifiers equal the reference (RAW = reads∩pending writes, WAW = writes∩pending writes, WAR = writes∩pending reads, zero register skipped); R04.2 the control unit's dispatch predicates equal the reference (conflict with held-back instructions; forwarding only for exactly one RAW hazard with a producer dispatched in the previous cycle; renaming only for exactly one non-RAW hazard) and every dispatch is guarded by 'no hazard', the forwarding predicate or the renaming predicate; R04.3 the scoreboard is raised at dispatch and released after the architectural write, in the same block; R04.4 forwarding wiring (one channel of capacity 1 shared by producer and consumer, the forwarded register is the hazard's, the producer sends its result exactly when it has a forwarder, the consumer receives before it runs); R04.5 register read precedence; R04.6 declared read/write sets are exact; R04.7 the scoreboard touches only the scoreboard; R04.8 where renaming can put two writers of a register in flight, the forwarding predicate equals the renaming reference (forward only from the single writer dispatched in the previous cycle when no writer was dispatched in the current cycle); R04.14 a variant that renames registers on write-after-read bounds every register read by the reader's own sequence tag; R04.13 Forward(f) of every instruction stores f in the instruction itself (pointer receiver, the field every register read consults); R04.12 write-after-write under out-of-order completion: the uncommitted writes of a register are kept ordered by sequence id, a value is committed only over an older one, and a read prefers a committed younger value (reference model); R04.9 all register-reading calls of one variant pass the same sequence tag; R04.11 every path through the control unit's step rotates the previous-cycle set the forwarding predicate relies on; R04.10 wiring a forward writes only the producer's Forwarder, so an instruction that is the consumer of one forward and the producer of the next keeps the register it is waiting for. Does not decide that the discipline is sufficient under every dispatch interleaving (a schedule/value question). R04.15 the control unit neither loses nor duplicates an instruction and appends every held-back instruction to the list the hazard-with-held-back predicate consults; R04.16 the containers of in-flight instructions (pending queue, current/previous dispatch windows, held-back list) are emptied by the flush or re-created by every step. R04.17 the operand handed to a forwarded instruction is the value received on the forwarding channel, for the register recorded at dispatch. R04.18 the control unit's dispatch decision equals its reference model as a decision procedure over the (uninterpreted) answers of the predicates it consults: outcome, channel wiring and order of consultations agree on every combination of answers, which fixes the polarity of every guard. R04.19 the program-order tag given at decode is strictly increasing in decode order (the rename table, the write-unit filter and the rollbacks order by it). R04.20 MVP-4/5: the execute unit leaves the step while a register the instruction reads has a pending write (positive test, before the addresses are computed and the instruction runs). R04.21 the scoreboard entries raised at dispatch are released for every kind of execution the write unit accepts (register result, store, nothing to write) and for a store the execute unit performs in place. R04.22 the write unit's sequence filter is strict: the result of the instruction that caused the flush is written (its consumers on the correct path read it). R04.23 the folds of the rename table into the committed table (one value per register) at branch resolution take older in-flight readers into account (known: they do not). R04.24 the function that dispatches an instruction answers true after it did and false when it left before (a wrong answer dispatches the instruction twice or loses it).",
 		Assumptions: []string{"dispatch interleavings beyond the structural rules are not explored"},
 		Trusted:     []string{"go/types", "term engine", "reference models spec/risc_state.go.txt, spec/cu.go.txt"},
 	})
@@ -87,6 +87,8 @@ func runC04(r *Run) {
 	}
 	conform(r, "R04.5", "risc", "", "registerRead", "risc_state", nil)
 	// the flushing instruction's own result is written (a first-time jal's link register is read by the code it jumps to)
+	r.floor("R04.24", 6)
+	ruleDispatchTruthful(r, "R04.24")
 	r.floor("R04.23", 2)
 	ruleCommitRespectsOlderReaders(r, "R04.23")
 	r.floor("R04.22", 7)
